@@ -237,6 +237,8 @@ type Atom struct {
 	Key   string // canonical predicate(args)
 	Pol   bool   // polarity established
 	Const int    // 0 = not constant; 1 = always true; -1 = always false (after polarity)
+	// for Eq(term, constant): the two sides (used for equality facts)
+	EqTerm, EqConst string
 }
 
 func sorted2(a, b string) (string, string) {
@@ -431,7 +433,13 @@ func normAtom(t *Term, nilness func(*Term) int) Atom {
 				}
 			}
 			x, y := sorted2(a.Key(), b.Key())
-			return Atom{Key: "Eq(" + x + ", " + y + ")", Pol: pol == eq}
+			at := Atom{Key: "Eq(" + x + ", " + y + ")", Pol: pol == eq}
+			if a.isConst() && !b.isConst() {
+				at.EqTerm, at.EqConst = b.Key(), a.Key()
+			} else if b.isConst() && !a.isConst() {
+				at.EqTerm, at.EqConst = a.Key(), b.Key()
+			}
+			return at
 		case "<", "<=", ">", ">=":
 			// reduce to Lt(x,y) with polarity
 			x, y, p := a, b, pol
